@@ -9,6 +9,7 @@ require (
 	github.com/miekg/dns v1.1.29
 	github.com/spaolacci/murmur3 v1.1.0
 	go.etcd.io/gofail v0.2.0
+	golang.org/x/crypto v0.0.0-20200622213623-75b288015ac9
 	golang.org/x/net v0.0.0-20201021035429-f5854403a974
 )
 
@@ -48,7 +49,6 @@ require (
 	go.elastic.co/apm/module/apmot v1.7.2 // indirect
 	go.elastic.co/fastjson v1.0.0 // indirect
 	go.uber.org/atomic v1.6.0 // indirect
-	golang.org/x/crypto v0.0.0-20200622213623-75b288015ac9 // indirect
 	golang.org/x/sys v0.0.0-20210119212857-b64e53b001e4 // indirect
 	golang.org/x/text v0.3.3 // indirect
 	google.golang.org/grpc v1.22.1 // indirect
